@@ -537,6 +537,19 @@ Definition cap_ttl (ttl : N) (r : rr) : rr :=
   | _ => r
   end.
 
+(* capRelayedTTLs (dns64.go, since 1a0e74f), one record: whatever its type, a
+   relayed record whose TTL exceeds the seconds left of the request tree's
+   bound is replaced by a copy carrying exactly those seconds; without a
+   bound (CutUntil() zero) nothing changes.  (OPT records are skipped by the
+   code; the model's answer sections never hold one.) *)
+Definition set_ttl (t : N) (r : rr) : rr :=
+  match r with
+  | RA o _ x => RA o t x | RAAAA o _ x => RAAAA o t x | RCNAME o _ x => RCNAME o t x
+  | RDNAME o _ x => RDNAME o t x | RPTR o _ x => RPTR o t x | ROther o _ x => ROther o t x
+  end.
+Definition relay_rr (cut : option N) (r : rr) : rr := set_ttl (bound_ttl cut (rr_ttl r)) r.
+Definition relay_rrs (cut : option N) (l : list rr) : list rr := map (relay_rr cut) l.
+
 (* the (prefix, A) double loop of synthesise *)
 Definition synth_one (c : compiled) (ttl : N) (p : cprefix) (a : rr) : list rr :=
   match a with
@@ -653,7 +666,9 @@ Definition synthesise (v : variant) (c : compiled) (m : msg) (same : bool) (al :
       let chain := filter is_chain (m_answer ar) in
       let addrs := filter is_a (m_answer ar) in
       if negb (m_rcode ar =? 0) || (length addrs =? 0)%nat then
-        mk_result PABasis (Some (mk_reply false (m_rcode ar) false (basis_edes m) chain)) true true
+        (* buildAResponseAsBasis: the alias chain of the A answer is relayed,
+           since 1a0e74f capped by the request tree's bound (capRelayedTTLs) *)
+        mk_result PABasis (Some (mk_reply false (m_rcode ar) false (basis_edes m) (relay_rrs cut chain))) true true
       else
         let ttl := synth_ttl v (m_ns m) addrs cut in
         let syn := synth_rrs c ttl addrs in
